@@ -138,6 +138,14 @@ func probeFlight(p flightArg) (string, string) {
 	if e1 != nil || e2 != nil || e3 != nil || e4 != nil || ga != a || gb != b || ha != a || hb != b {
 		return "text_overwritten_by_later_call", fmt.Sprintf("texts of %d and %d kept across later marshal calls read %q %s %q %s and unmarshal to %d %d %d %d (%v %v %v %v)", p.A, p.B, ta, ja, tb, jb, uint64(ga), uint64(gb), uint64(ha), uint64(hb), e1, e2, e3, e4)
 	}
+	// the caller may write into a returned slice: later calls must not be affected by that
+	defer mc.Scribble(ta, ja, tb, jb)()
+	ta2, _ := a.MarshalText()
+	jb2, _ := b.MarshalJSON()
+	var g2, h2 size.Size
+	if e1, e2 := g2.UnmarshalText(ta2), h2.UnmarshalJSON(jb2); e1 != nil || e2 != nil || g2 != a || h2 != b {
+		return "text_affected_by_caller_writing_into_earlier_result", fmt.Sprintf("after the caller overwrote earlier results: MarshalText(%d) = %q, MarshalJSON(%d) = %s (%v, %v)", p.A, ta2, p.B, jb2, e1, e2)
+	}
 	return "", ""
 }
 
